@@ -808,7 +808,7 @@ def case_darr(p):
         try:
             t = a.distance_matrix(calc=p.get("calc", "pdist"), drop_invalid=False)
         except ArithmeticError:
-            t = a.distance_matrix(calc="pdist", drop_invalid=False)
+            t = a.take_seqs(["a", "b"]).distance_matrix(calc="pdist", drop_invalid=False)
     elif p["kind"] == "profile":
         from cogent3 import make_aligned_seqs
 
